@@ -4,7 +4,7 @@
 set -u
 FLAV=$1; SCR=$2; RACE=${3:-}
 export GOFLAGS=-mod=mod GOPROXY=off GOSUMDB=off GOTOOLCHAIN=local CGO_ENABLED=1
-V=/verif
+V=$(cd "$(dirname "$0")/.." && pwd)
 REPO=${VERIF_REPO:-/repo}
 mkdir -p "$SCR/bin" || exit 2
 if [ ! -x "$SCR/bin/instr" ]; then
